@@ -43,6 +43,8 @@ def main(argv):
                 for k, r in enumerate(rs):
                     if r["status"] != "proved":
                         print("      path %d line %d: %s  %s %s" % (k, r["ob"].line, r["status"], r["per_solver"], r["ob"].text[:100]))
+                        if any(v[0] == "error" for v in r["per_solver"].values()):
+                            print("      solver output:", r["output"][:600].replace("\n", " | "))
                         if dump:
                             with open(os.path.join(dump, "%s.%d.smt2" % (oid.replace("/", "_").replace(":", "_"), k)), "w") as f:
                                 f.write(discharge.script_for(eng, r["ob"]))
